@@ -255,7 +255,9 @@ def gen_cases(tier, seed):
         for cno in range(6 if tier == "quick" else 48):
             yield dict(kind="order", site=site, dev=1, call=cno)
         if tier != "quick":
-            yield dict(kind="order", site=site, dev=2, call=None)
+            # two deviating calls, sharded by the first of them
+            for cno in range(48):
+                yield dict(kind="order", site=site, dev=2, call=None, pair_first=cno)
     pairs = [(0, 1)] if tier == "quick" else [(0, 1), (0, 2), (1, 2)]
     small = ["tsf_fit", "tsf_proba", "tsfr_predict", "ens_fit"]      # 60-75 points per task
     big = ["stsf_fit", "rise_fit", "boss_predict"]                   # 1 000-6 000 points per task
@@ -818,7 +820,8 @@ def _order(case, res):
     n = 0
     sizes = None
     for schedule, calls, (ok, val) in sched.explore_orders(thunk, deviations=case["dev"],
-                                                           only_call=case.get("call")):
+                                                           only_call=case.get("call"),
+                                                           pair_first=case.get("pair_first")):
         n += 1
         res.transitions += 1
         sizes = calls if sizes is None else sizes
@@ -837,6 +840,9 @@ def _order(case, res):
     res.evals = n
     if sizes and max(sizes) > 1:
         res.nt((site, tuple(sizes)))
+    if sizes and sum(1 for k_ in sizes if k_ > 1) > 48:
+        res.notes.append("CAPPED: order %s: %d multi-task calls, deviations explored in the first "
+                         "48" % (site, sum(1 for k_ in sizes if k_ > 1)))
     res.outcome("order:calls=%s" % (sizes,))
 
 
